@@ -139,7 +139,7 @@ func sharedBackingRun(c *Ctx, idx int) {
 		return out
 	}
 	sm := map[string]any{"k": left[:2:2], "j": "x"}
-	doc := map[string]any{"x": build(left), "y": build(right), "ox": map[string]any{"p": left[:n-1 : n-1], "q": left[:n:n]}, "oy": map[string]any{"p": right[:n-1 : n-1], "q": right[:n:n]}, "m": []any{sm, sm}, "m2": []any{deepCopyAny(sm), map[string]any{"k": right[:2:2], "j": "x"}}}
+	doc := map[string]any{"x": build(left), "y": build(right), "ox": map[string]any{"p": left[: n-1 : n-1], "q": left[:n:n]}, "oy": map[string]any{"p": right[: n-1 : n-1], "q": right[:n:n]}, "m": []any{sm, sm}, "m2": []any{deepCopyAny(sm), map[string]any{"k": right[:2:2], "j": "x"}}}
 	tree := deepCopyAny(doc)
 	for _, text := range []string{"x == y", "y == x", "x != y", "contains([x], y)", "contains([y], x)", "x[0] == y[0]", "x[-1] == y[-1]", "[x, y][?@ == $.x] | length(@)", "reverse(x) == reverse(y)", "ox == oy", "oy == ox", "[ox.p, ox.q] == [oy.p, oy.q]", "[ox.q, ox.p] == [oy.q, oy.p]", "m == m2", "m2 == m", "x | [@[0] == $.y[0], @[1] == $.y[1]]", "map(&(@ == $.y[0]), x)", "x[?@ == $.y[-1]] | length(@)", "[x[0], x] == [y[0], y]", "sort_by([x, y], &length(@[0])) | @[0] == @[1]"} {
 		la := c.LibSearch(text, doc)
